@@ -15,7 +15,8 @@ tvars == <<sc, l, s>>
 Ev == Rec[l]
 Req(p, cond) == (p \in Props) => cond
 
-S0 == [phase |-> "start", ins |-> [outcome |-> "none"], crashed |-> FALSE]
+S0 == [phase |-> "start", ins |-> [outcome |-> "none"], crashed |-> FALSE, pend |-> {}]
+R128 == <<0, 0, 0, 8, 0, 0, 0, 0>>          \* 0x0800_0000: the +/-128 MiB search window
 TraceInit == sc \in 1..NScen /\ l = First(sc) /\ s = S0
 Step(name) == l <= Last(sc) /\ Ev.ev = name /\ l' = l + 1 /\ sc' = sc
 
@@ -39,8 +40,13 @@ Place == Step("Place") /\ s' = [s EXCEPT !.phase = "placed"]
 Installed ==
   /\ Step("Installed")
   /\ IF Ev.outcome = "ok"
-     THEN IF Ev.kind = "bool" THEN BoolOk(Ev) ELSE JumpOk(Ev)
-     ELSE Req("C01", Ev.entry = Ev.origb)
+     THEN /\ IF Ev.kind = "bool" THEN BoolOk(Ev) ELSE JumpOk(Ev)
+          \* C11: the one mapping left is the trampoline, and it lies inside the window; every
+          \* placement that was tried and rejected has been given back
+          /\ Req("C11", s.pend = {Ev.tramp_name})
+          /\ Req("C11", Le(AbsDiff(Ev.tramp, Ev.func), R128))
+     ELSE /\ Req("C01", Ev.entry = Ev.origb)
+          /\ Req("C11", Ev.cls = "alloc-exhausted" => (s.pend = {} /\ Ev.entry = Ev.origb))
   /\ s' = [s EXCEPT !.phase = "installed", !.ins = Ev]
 
 Called ==
@@ -67,10 +73,16 @@ ChildExit ==
   /\ Req("ALL", Ev.signal = 0 /\ Ev.code = 0)
   /\ s' = [s EXCEPT !.crashed = (Ev.signal # 0)]
 
-Other == l <= Last(sc) /\ Ev.ev \in {"Note", "Mmap", "Munmap", "Mprotect", "Write", "Flush", "Target"}
+Mmap == Step("Mmap") /\ s' = IF Ev.ok THEN [s EXCEPT !.pend = @ \cup {Ev.name}] ELSE s
+Munmap ==
+  /\ Step("Munmap")
+  /\ Req("C11", s.phase # "dropped" /\ s.ins.outcome = "none" => Ev.name \in s.pend)
+  /\ s' = [s EXCEPT !.pend = @ \ {Ev.name}]
+
+Other == l <= Last(sc) /\ Ev.ev \in {"Note", "Mprotect", "Write", "Flush", "Target"}
          /\ l' = l + 1 /\ sc' = sc /\ s' = s
 
-TraceNext == Place \/ Installed \/ Called \/ Neighbour \/ Dropped \/ ChildExit \/ Other
+TraceNext == Place \/ Installed \/ Called \/ Neighbour \/ Dropped \/ ChildExit \/ Mmap \/ Munmap \/ Other
 TraceSpec == TraceInit /\ [][TraceNext]_tvars
 Track == TrackProgress(sc, l)
 Post == PrintProgress
